@@ -8,8 +8,8 @@ from vk.symx.poly import Poly, all_zero, first_nonzero
 
 class TimeUp(BaseException):
     """wall-clock budget of a pooled case exhausted.  BaseException: it passes through the `except Exception` clauses that turn exceptions of the code under test
-    into totality violations - running out of time is not a property of the code.  Raised only at safe points (between obligations / at kernel calls), never from a
-    signal handler (an exception raised asynchronously inside object construction surfaces as SystemError)"""
+    into totality violations - running out of time is not a property of the code.  Raised only synchronously (between obligations, at kernel calls, every few thousand term products of the
+    polynomial arithmetic), never from a signal handler (an exception raised asynchronously inside object construction surfaces as SystemError)"""
 
 
 _DEADLINE = [None]
@@ -19,6 +19,10 @@ def budget_check():
     import time as _t
     if _DEADLINE[0] is not None and _t.time() > _DEADLINE[0]:
         raise TimeUp()
+
+
+from vk.symx import poly as _poly
+_poly._TICK[1] = budget_check        # long polynomial products (numpy object dot) call back every few thousand term products
 
 
 def run_with_budget(seconds, fn, case, led, skipped_key):
